@@ -364,6 +364,12 @@ theorem Moves.done {l l1 l' : Lexer} (hm : Moves l l1) (hok : Ok l) (h : Done l1
 @[simp] theorem setState_items (s : LState) (l : Lexer) : (setState s l).items = l.items := rfl
 @[simp] theorem setState_state (s : LState) (l : Lexer) : (setState s l).state = s := rfl
 @[simp] theorem setState_errout (s : LState) (l : Lexer) : (setState s l).errout = l.errout := rfl
+@[simp] theorem setState_errcnt (s : LState) (l : Lexer) : (setState s l).errcnt = l.errcnt := rfl
+@[simp] theorem setState_file (s : LState) (l : Lexer) : (setState s l).file = l.file := rfl
+@[simp] theorem setState_inPattern (s : LState) (l : Lexer) : (setState s l).inPattern = l.inPattern := rfl
+@[simp] theorem setState_line (s : LState) (l : Lexer) : (setState s l).line = l.line := rfl
+@[simp] theorem setState_col (s : LState) (l : Lexer) : (setState s l).col = l.col := rfl
+@[simp] theorem setState_tcol (s : LState) (l : Lexer) : (setState s l).tcol = l.tcol := rfl
 @[simp] theorem setState_unread (s : LState) (l : Lexer) : unread (setState s l) = unread l := rfl
 
 /-- nothing was queued, the measure has not grown -/
